@@ -58,11 +58,11 @@ func ProjectType(t cty.Type) J {
 	case t.IsObjectType():
 		as := J{}
 		for n, a := range t.AttributeTypes() {
-			as[n] = ProjectType(a)
+			as[absName(n)] = ProjectType(a)
 		}
 		opt := []string{}
 		for n := range t.OptionalAttributes() {
-			opt = append(opt, n)
+			opt = append(opt, absName(n))
 		}
 		sort.Strings(opt)
 		o := []any{}
@@ -135,6 +135,7 @@ func init() {
 	add("i64maxp", pow2(63, ""))
 	add("u64max", pow2(64, "-1"))
 	add("u64maxp", pow2(64, ""))
+	add("u64maxpp", pow2(64, "1"))
 	add("e30", new(big.Float).SetPrec(512).SetInt(new(big.Int).Exp(big.NewInt(10), big.NewInt(30), nil)))
 	add("f32max", new(big.Float).SetFloat64(math.MaxFloat32))
 	add("f32maxp", pow2(128, ""))
@@ -332,16 +333,16 @@ func projectPublic(v cty.Value) J {
 			if !norm.NFC.IsNormalString(k) {
 				nfc = false
 			}
-			if _, dup := m[k]; dup {
+			if _, dup := m[absName(k)]; dup {
 				out["bad"] = "duplicate key " + k
 			}
-			m[k] = project(ev)
+			m[absName(k)] = project(ev)
 		}
 		if ty.IsObjectType() {
 			// every declared attribute must be readable
 			for n := range ty.AttributeTypes() {
-				if _, ok := m[n]; !ok {
-					m[n] = project(uv.GetAttr(n))
+				if _, ok := m[absName(n)]; !ok {
+					m[absName(n)] = project(uv.GetAttr(n))
 				}
 			}
 		}
